@@ -21,8 +21,9 @@ BR = [("_current_byte", PD), ("_bit_offset", "int")]
 def cmp_op(op, lean):
     return Sym(STEP, r"bool operator%s\(const step_iterator_adaptor<D,Iterator,SFn>& p1, const step_iterator_adaptor<D,Iterator,SFn>& p2\)" % op,
                lean, [("step", PD), ("b1", PD), ("b2", PD)], ret="bool",
-               subst=[(r"p1\.step\(\)", "step"), (r"p1\.base\(\)", "b1"), (r"p2\.base\(\)", "b2")],
-               doc="step_iterator_adaptor operator%s (bases compared as addresses)" % op)
+               subst=[(r"p1\.step\(\)", "step"), (r"memunit_distance\(p2\.base\(\),p1\.base\(\)\)", "(b1 - b2)"),
+                      (r"p1\.base\(\)", "b1"), (r"p2\.base\(\)", "b2")],
+               doc="step_iterator_adaptor operator%s (b1, b2: memory positions of the bases; memunit_distance(p2.base(),p1.base()) = b1 - b2)" % op)
 
 SYMS = [
     Sym(I2, r"void advance\(difference_type d\)", "it2d_advance", [("d", "difference_type")] + ST, outputs=OUT,
